@@ -489,10 +489,10 @@ ROUND10 = {
     'BUILD_TAG_MAIN': 'package main\n\ntype App struct{ edition string }\n\nfunc main() {\n\tif e := InitApp().edition; e != "free" && e != "pro" {\n\t\tpanic("wrong result")\n\t}\n}\n',
     'HANDWRITTEN_BAND_K': 'package main\n\nimport "github.com/mazrean/kessoku"\n\ntype App struct{ s string }\n\nfunc NewApp() *App { return &App{helper()} }\n\nvar _ = kessoku.Inject[*App]("InitApp", kessoku.Provide(NewApp))\n\nfunc main() {\n\tif InitApp().s != "h" {\n\t\tpanic("wrong result")\n\t}\n}\n',
     'HANDWRITTEN_BAND_B': 'package main\n\n// written by hand: a marching band, not kessoku output\nfunc helper() string { return "h" }\n',
-    'CTX_KEPT': 'package main\n\nimport (\n\t"context"\n\n\t"github.com/mazrean/kessoku"\n)\n\ntype Server struct{ base context.Context }\ntype Cache struct{}\ntype App struct {\n\ts *Server\n\tc *Cache\n}\n\nfunc NewServer(ctx context.Context) *Server { return &Server{base: ctx} }\nfunc NewCache() *Cache                     { return &Cache{} }\nfunc NewApp(s *Server, c *Cache) *App      { return &App{s, c} }\n\nvar _ = kessoku.Inject[*App]("InitApp", kessoku.Provide(NewServer), kessoku.Async(kessoku.Provide(NewCache)), kessoku.Provide(NewApp))\n\nfunc main() {\n\tctx, cancel := context.WithCancel(context.Background())\n\tdefer cancel()\n\ta := InitApp(ctx)\n\tif a.s.base.Err() != nil {\n\t\tpanic("wrong result: the provider was handed a context that is cancelled when the injector returns")\n\t}\n}\n',
+    'CTX_KEPT': 'package main\n\nimport (\n\t"context"\n\n\t"github.com/mazrean/kessoku"\n)\n\ntype Server struct{ base context.Context }\ntype Cache struct{}\ntype Queue struct{}\ntype App struct {\n\ts *Server\n\tc *Cache\n\tq *Queue\n}\n\nfunc NewServer(ctx context.Context) *Server { return &Server{base: ctx} }\nfunc NewCache() *Cache                     { return &Cache{} }\nfunc NewQueue() *Queue                     { return &Queue{} }\nfunc NewApp(s *Server, c *Cache, q *Queue) *App { return &App{s, c, q} }\n\nvar _ = kessoku.Inject[*App]("InitApp", kessoku.Provide(NewServer), kessoku.Async(kessoku.Provide(NewCache)), kessoku.Async(kessoku.Provide(NewQueue)), kessoku.Provide(NewApp))\n\nfunc main() {\n\tctx, cancel := context.WithCancel(context.Background())\n\tdefer cancel()\n\ta := InitApp(ctx)\n\tif a.s.base.Err() != nil {\n\t\tpanic("wrong result: the provider was handed a context that is cancelled when the injector returns")\n\t}\n}\n',
     'INTERNAL_IMPL': 'package impl\n\ntype Client struct{ S string }\n',
-    'INTERNAL_LIB': 'package lib\n\nimport "vscratch/known_KF_C04_26/lib/internal/impl"\n\nfunc NewClient() *impl.Client { return &impl.Client{S: "c"} }\nfunc Name(c *impl.Client) string { return c.S }\n',
-    'INTERNAL_K': 'package main\n\nimport (\n\t"context"\n\n\t"github.com/mazrean/kessoku"\n\t"vscratch/known_KF_C04_26/lib"\n)\n\ntype Cache struct{}\ntype App struct{ name string }\n\nfunc NewCache() *Cache { return &Cache{} }\n\nvar _ = kessoku.Inject[*App]("InitApp", kessoku.Async(kessoku.Provide(lib.NewClient)), kessoku.Async(kessoku.Provide(NewCache)),\n\tkessoku.Provide(func(c *Cache) *App { return &App{"x"} }))\n\nfunc main() { _ = InitApp(context.Background()) }\n',
+    'INTERNAL_LIB': 'package lib\n\nimport "vscratch/known_KF_C04_26/lib/internal/impl"\n\ntype Cache struct{}\ntype App struct{ Name string }\n\nfunc NewClient() *impl.Client { return &impl.Client{S: "c"} }\nfunc NewCache() *Cache        { return &Cache{} }\nfunc NewApp(c *impl.Client, k *Cache) *App { return &App{Name: c.S} }\n',
+    'INTERNAL_K': 'package main\n\nimport (\n\t"context"\n\n\t"github.com/mazrean/kessoku"\n\t"vscratch/known_KF_C04_26/lib"\n)\n\nvar _ = kessoku.Inject[*lib.App]("InitApp", kessoku.Async(kessoku.Provide(lib.NewClient)), kessoku.Async(kessoku.Provide(lib.NewCache)), kessoku.Provide(lib.NewApp))\n\nfunc main() { _ = InitApp(context.Background()) }\n',
     'GOOS_LINUX': 'package main\n\nimport "github.com/mazrean/kessoku"\n\nfunc NewLinux() *App { return &App{"linux"} }\n\nvar _ = kessoku.Inject[*App]("InitApp", kessoku.Provide(NewLinux))\n',
     'GOOS_WINDOWS': 'package main\n\nimport "github.com/mazrean/kessoku"\n\nfunc NewWindows() *App { return &App{"windows"} }\n\nvar _ = kessoku.Inject[*App]("InitApp", kessoku.Provide(NewWindows))\n',
     'GOOS_MAIN': 'package main\n\ntype App struct{ os string }\n\nfunc main() { _ = InitApp() }\n',
